@@ -34,7 +34,7 @@ def main(seed):
     r = tlc.run("mc/MCEngine.tla", eng.engine_cfg("neg-f1", "T2", "PF1", inv="TypeOK Linearizable", props=None), workers=8)
     expect("Engine fine-grained F1 violates Linearizable", r.violation == "Linearizable", str(r.violation))
     cfg = os.path.join(tlc.WORK, "neg-describe.cfg")
-    open(cfg, "w").write("SPECIFICATION Spec\nCONSTANTS MaxSets = 2\n KeyUniverse <- AllKeys\n Emit = FALSE\n BinaryKeyIsUnary = TRUE\nCHECK_DEADLOCK FALSE\nINVARIANT MachineIsReference\n")
+    open(cfg, "w").write("SPECIFICATION Spec\nCONSTANTS MaxSets = 2\n KeyUniverse <- AllKeys\n Emit = FALSE\n Deep = FALSE\n BinaryKeyIsUnary = TRUE\nCHECK_DEADLOCK FALSE\nINVARIANT MachineIsReference\n")
     r = tlc.run("mc/MCDescribe.tla", cfg, workers=4)
     expect("Describe BinaryKeyIsUnary=TRUE violates MachineIsReference", r.violation == "MachineIsReference", str(r.violation))
 
